@@ -38,6 +38,7 @@ class TaskResult:
         self.smt2 = []
         self.notes = []
         self.extra = {}
+        self.cross = []
 
     def oblig(self, key, ok, symbolic=True, sample=None):
         self.obligs.append((key, ok, symbolic))
@@ -51,6 +52,7 @@ class TaskResult:
         for s in sv.smt2_samples:
             if len(self.smt2) < 1:
                 self.smt2.append(s)
+        self.cross += sv.cross
 
     def absorb_exec(self, ex):
         self.fns |= ex.fns_used
@@ -97,6 +99,7 @@ def _describe(key):
 class Pool:
     def __init__(self, jobs=None):
         self.jobs = jobs or common.ncpu()
+        self.cross_budget = 400 if os.environ.get("VERIF_TIER") == "thorough" else 48
         ctx = mp.get_context("fork")
         self.pool = ctx.Pool(self.jobs)
 
@@ -136,8 +139,71 @@ class Pool:
                 if isinstance(v, int):
                     report.extra[k] = report.extra.get(k, 0) + v
             cands += r.candidates
+            pend = report.extra.setdefault("_cross_pending", [])
+            if len(pend) < self.cross_budget:
+                pend.extend(r.cross[: max(0, self.cross_budget - len(pend))])
         report.time_engine(engine, time.time() - t0)
         return cands
+
+    def cross_check(self, report):
+        """second-solver comparison on a sample of this run's queries: z3 4.8.12 CLI on all sampled
+        queries, cvc5 1.0 on the linear ones (it times out on division by variables); disagreement => inconclusive"""
+        import subprocess, tempfile, re as _re
+        pend = report.extra.pop("_cross_pending", [])
+        if not pend:
+            return
+        t0 = time.time()
+        sc = common.scratch()
+        d = sc.dir("cross")
+        stats = {"queries": 0, "z3_4.8.12_agree": 0, "z3_4.8.12_unknown": 0, "cvc5_agree": 0, "cvc5_unknown": 0, "cvc5_skipped_nonlinear": 0, "disagreements": 0}
+
+        def verdict_of(text):
+            if "(error" in text:
+                return "error"
+            vs = [l.strip() for l in text.split("\n") if l.strip() in ("sat", "unsat", "unknown")]
+            return vs[0] if vs else "none"
+
+        def one(args):
+            i, txt, verdict = args
+            f = os.path.join(d, "q%d.smt2" % i)
+            open(f, "w").write(txt + "\n(check-sat)\n" if "(check-sat)" not in txt else txt)
+            out = {}
+            try:
+                p = subprocess.run(["/usr/bin/z3", "-T:20", f], stdout=subprocess.PIPE, stderr=subprocess.STDOUT, text=True, timeout=40)
+                o = verdict_of(p.stdout)
+            except Exception:
+                o = "timeout"
+            out["z3"] = o
+            nonlinear = bool(_re.search(r"\(/ [^()]*\(|\(\* [a-z!][^ ]* [a-z!]|\(/ [a-z!r]\S* [a-z!r]", txt)) or "Float" in txt or "declare-sort" in txt and False
+            if nonlinear:
+                out["cvc5"] = "skipped"
+            else:
+                try:
+                    p = subprocess.run(["cvc5", "--lang", "smt2", "--tlimit=20000", f], stdout=subprocess.PIPE, stderr=subprocess.STDOUT, text=True, timeout=40)
+                    o = verdict_of(p.stdout)
+                except Exception:
+                    o = "timeout"
+                out["cvc5"] = o
+            return verdict, out
+        import concurrent.futures as cf
+        with cf.ThreadPoolExecutor(max_workers=self.jobs) as ex:
+            res = list(ex.map(one, [(i, t, v) for i, (t, v) in enumerate(pend)]))
+        for verdict, out in res:
+            stats["queries"] += 1
+            for name, key in (("z3", "z3_4.8.12"), ("cvc5", "cvc5")):
+                o = out[name]
+                if o == "skipped":
+                    stats["cvc5_skipped_nonlinear"] += 1
+                elif o in ("sat", "unsat"):
+                    if o == verdict:
+                        stats[key + "_agree"] += 1
+                    else:
+                        stats["disagreements"] += 1
+                        report.inconcl("cross-solver disagreement: z3 5.1 says %s, %s says %s" % (verdict, key, o))
+                else:
+                    stats[key + "_unknown"] += 1
+        report.cross_solver = stats
+        report.time_engine("cross_solver", time.time() - t0)
 
     def close(self):
         self.pool.terminate()
